@@ -682,3 +682,12 @@ Qed.
 Lemma union_empty_result_not_merged :
   exists u s, union_of 11 [] = Ok u /\ union_to_sketch u = Ok s /\ c_num s = 0 /\ c_merge s = false.
 Proof. eexists. eexists. split; [reflexivity|]. split; [reflexivity|]. split; reflexivity. Qed.
+
+Theorem cpc_union_no_stuck : forall lg0 l,
+  4 <= lg0 <= 26 -> Forall (fun x => Vin (fst (fst x)) (snd (fst x)) (snd x)) l ->
+  dom (uspec lg0 (ins_of l)) ->
+  exists u s, union_of lg0 (map (fun x => fst (fst x)) l) = Ok u /\ union_to_sketch u = Ok s.
+Proof.
+  intros lg0 l H1 H2 H3. destruct (cpc_union_refines lg0 l H1 H2 H3) as [u [E [_ [_ [s [Es _]]]]]].
+  exists u, s. split; assumption.
+Qed.
